@@ -223,6 +223,42 @@ func resolveAnchors(w *World) {
 			}
 		}
 	}
+	// the tile readers handed to tlog (sumdb and pixel feeders): the type of the package that has a ReadTiles method
+	for _, pk := range []string{"sumdb", "pixelbt"} {
+		pp := modPath + "/internal/feeder/" + pk
+		if w.byName["("+pp+".tileReader).ReadTiles"] != nil {
+			continue
+		}
+		var recvName string
+		n := 0
+		for _, fn := range prod {
+			if pkgPathOf(fn) == pp && fn.Parent() == nil && fn.Synthetic == "" && fn.Signature.Recv() != nil && fn.Name() == "ReadTiles" {
+				rt := fn.Signature.Recv().Type()
+				if p, ok := rt.(*types.Pointer); ok {
+					rt = p.Elem()
+				}
+				if nt, ok := rt.(*types.Named); ok {
+					recvName = nt.Obj().Name()
+					n++
+				}
+			}
+		}
+		if n != 1 {
+			continue
+		}
+		for _, fn := range prod {
+			if pkgPathOf(fn) != pp || fn.Parent() != nil || fn.Synthetic != "" || fn.Signature.Recv() == nil {
+				continue
+			}
+			rt := fn.Signature.Recv().Type()
+			if p, ok := rt.(*types.Pointer); ok {
+				rt = p.Elem()
+			}
+			if nt, ok := rt.(*types.Named); ok && nt.Obj().Name() == recvName {
+				reg("("+pp+".tileReader)."+fn.Name(), fn)
+			}
+		}
+	}
 	// the request-body writer: the implementation of feeder.Witness.Update in cmd/feedbastion
 	if w.byName[fnBCUpdate] == nil {
 		if m := ifaceMethod(w, pFeeder, "Witness", "Update"); m != nil {
